@@ -23,7 +23,7 @@ def atomic_parts():
 def run(tier, seed, replay=None):
     parts = atomic_parts()
     return run_check(
-        "C04", tier, seed, ["UnifexModel.Props.C04_Atomic"], parts,
+        "C04", tier, seed, ["UnifexModel.Props.C04_Atomic", "UnifexModel.Props.C04_AtomicInst"], parts,
         rule="(schedule level) the real when_all/when_all_range/stop_when with manual leaves (each leaf has a stop callback on the token it was given and may complete from inside it), "
              "completer threads and a thread requesting stop on the root receiver's source, under the controlled scheduler (DFS with preemption bound, random and PCT walks); "
              "the root receiver's token is a counting wrapper around inplace_stop_token: monitors = composite's stop callback still registered / running on another thread when the root "
@@ -37,5 +37,5 @@ def run(tier, seed, replay=None):
         trusted_extra=["harness/rt (cooperative scheduler, __tsan_* shim)", "Core/Admit.lean trace-inclusion test", "g++ 12 -fsanitize=thread instrumentation"],
         explanation="Props/C04_Atomic, when_all/when_all_range for ALL N >= 1, all configurations, all schedules (invariant induction): no_callback_registered_at_delivery, "
                     "destructed_before_signal, no_touch_after_delivery, failure_stops_running_siblings, failed_iff_winner, notified_when_notifier_done, stopped_at_delivery_if_failed, "
-                    "external_stop_reaches_children, stop_callback_requests_own_source; instances by kernel reflection (also deadlock-freedom of the blocking deregistrations): wa2_done_inl, "
+                    "external_stop_reaches_children, stop_callback_requests_own_source, stop_when_cancel_path_signals_with_callback_alive (witness); Props/C04_AtomicInst, instances by kernel reflection (also deadlock-freedom of the blocking deregistrations): wa2_done_inl, "
                     "wa2_err_inl, wa2_stop_inl, wa2_errinl_stop, sw_stop_inl, sw_trg_stop. Tie: trace inclusion of the real executions in the model configurations of the same name.")
